@@ -784,11 +784,15 @@ class BulkProof:
                     self.read_I(st, st.selem[pl["l"]][1], (self.name(l), 0))
                     return
             if rv["k"] == "binop" and rv["op"] in ("Add", "Sub"):
+                # release profile: unchecked arithmetic – exact only where wrapping is excluded by the current state
                 aa, cc = self.term(rv["a"]), self.term(rv["b"])
-                if aa and cc and cc[0] == "Z":
-                    self.set_int(st, l, (aa[0], aa[1] + (cc[1] if rv["op"] == "Add" else -cc[1])))
-                    return
-                if aa and cc and rv["op"] == "Sub":
+                if aa and cc and cc[0] == "Z" and aa[0] != "Z":
+                    c = cc[1] if rv["op"] == "Add" else -cc[1]
+                    safe = st.d.entails("Z", aa[0], aa[1] + c) if c < 0 else st.d.entails(aa[0], "Z", USIZE_MAX - c - aa[1])
+                    if safe:
+                        self.set_int(st, l, (aa[0], aa[1] + c))
+                        return
+                if aa and cc and rv["op"] == "Sub" and aa[0] != "Z" and cc[0] != "Z" and st.le(cc, aa):
                     self.havoc_int(st, l)
                     st.lin[l] = ("sub", aa, cc)
                     return
